@@ -17,6 +17,10 @@ CLAIMS = {
          "Decides the whole statement by structural induction over Walk's cases.", "4 C13"),
  "C14": ("child-table agreement apply/Walk/struct + normal-form equality of the fork with astutil v0.1.12",
          "Same code as upstream modulo the node table, which is checked semantically; a behaviour-preserving rewrite of a forked function is reported (stated limitation).", "4 C14"),
+ "C16": ("lockset analysis over mutex-guarded fields, global-write and goroutine/channel scan, map-iteration order classification, store classification by declaring package",
+         "Decides race-freedom of dst's own shared state (resolver cache, package-level tables) and absence of map-order dependence in the in-scope packages; the standard library's internals are trusted.", "4 C16"),
+ "C17": ("error-discipline rule over all error-returning call sites + store classification + CFG reachability in updateImports (no store before an error return)",
+         "Decides that resolver/parse errors surface and that no tree is modified on a failing path; retry equality follows only together with C16.", "4 C17"),
  "C19": ("abstract interpretation of the five list methods over a two-atom sequence domain",
          "Decides list semantics and non-aliasing for every call sequence (methods are functions of old contents and argument).", "4 C19"),
  "C20": ("who-may-call rule for file-system mutators + ordering/dataflow rule on (*Package).save",
@@ -26,7 +30,7 @@ CLAIMS = {
 NOT_APPLICABLE = {
  "C10": "meaning preservation of moved code needs a type checker run over output programs; no static rule over dst's source bounds it (DESIGN.md 4, C10)",
 }
-PENDING = ["C02", "C05", "C07", "C08", "C09", "C12", "C15", "C16", "C17", "C18"]
+PENDING = ["C02", "C05", "C07", "C08", "C09", "C12", "C15", "C18"]
 
 props = [json.loads(l)["id"] for l in open("/verif/properties.jsonl")]
 checks = []
